@@ -1,0 +1,38 @@
+//go:build verif
+// +build verif
+
+package server
+
+// Add-only export for the verification harness (build tag verif), property
+// C32 (two-phase namespace change driven by cc).
+
+import (
+	"net/http"
+
+	"github.com/gin-gonic/gin"
+
+	"github.com/XiaoMi/Gaea/models"
+)
+
+// VerifC32NewAdminHandler returns the proxy admin API (the routes of
+// AdminServer.registerURL with their real handlers) on top of a Server that
+// holds the given Manager. Nothing listens and nothing is registered in the
+// coordinator; the caller serves the handler.
+func VerifC32NewAdminHandler(m *Manager, cfg *models.Proxy) http.Handler {
+	gin.SetMode(gin.ReleaseMode)
+	srv := &Server{manager: m, EncryptKey: cfg.EncryptKey, ServerConfig: cfg}
+	s := &AdminServer{
+		proxy:               srv,
+		adminUser:           cfg.AdminUser,
+		adminPassword:       cfg.AdminPassword,
+		engine:              gin.New(),
+		configType:          cfg.ConfigType,
+		coordinatorAddr:     cfg.CoordinatorAddr,
+		coordinatorUsername: cfg.UserName,
+		coordinatorPassword: cfg.Password,
+		coordinatorRoot:     cfg.CoordinatorRoot,
+	}
+	srv.adminServer = s
+	s.registerURL()
+	return s.engine
+}
